@@ -8,6 +8,7 @@ import ast
 from ..cfg import CFG
 from ..core import AnalysisError, const_value
 from ..defuse import DefUse, Terms, show, walk_term
+from ..defuse import key as tkey
 from ..tutil import lin, np_call, strip_conv
 
 EXPLANATION = (
@@ -91,7 +92,7 @@ def _shuffle(ctx, f):
     ia = {ast.unparse(s.targets[0]): s for s in il.body
           if isinstance(s, ast.Assign)}
     Tn = Terms(du, phi_vars=True)
-    key = (lambda x: show(x, 300))
+    key = (lambda x: tkey(x, 300))
     # the slice store
     stores = [s for s in ast.walk(il) if isinstance(s, ast.Assign)
               and isinstance(s.targets[0], ast.Subscript)
@@ -204,7 +205,7 @@ def _shuffle(ctx, f):
             for a in inner:
                 ar = np_call(a)[1]
                 if len(ar) != 1 or lin(ar[0], key) != diff and \
-                        show(ar[0]) != Lname:
+                        tkey(ar[0]) != Lname:
                     pass
         ctx.check(ok, "C18a-permutation-of-range", f,
                   f"{pname}[L] := {ast.unparse(s.value)[:50]} is a "
